@@ -577,7 +577,7 @@ def r09_12(run, model):
                         run.ob("R09.12", f"{t.fn.name}|{vname}: `{nm}` survives return #{ri}", ok, site(t.fn.file, r["sp"]), why,
                                witness="next(counter, \"left\") * 0 becomes the literal 0: an algebraic shortcut taken after the operands were translated "
                                        "returns without them; the call and its output vanish")
-    run.floor("(early return, translated sub-term) pairs examined", n, 15)
+    run.floor("(early return, translated sub-term) pairs examined", n, 10)
 
 
 def r09_13(run, model):
@@ -764,7 +764,7 @@ def r09_14(run, model):
                         run.ob("R09.14", f"{t.fn.name}|{vname}.{k} is translated before return #{ri}", ok, site(t.fn.file, r["sp"]), why,
                                witness="match eff(1) { _ => eff(2) }: the arm for a leading wildcard returns the translation of the arm body alone; "
                                        "eff(1) never runs")
-    run.floor("(early return, sub-term field) pairs examined", n, 18)
+    run.floor("(early return, sub-term field) pairs examined", n, 12)
 
 
 def run(run, model):
